@@ -772,6 +772,68 @@ def id_marker(ctx):
     ctx.check(ok, 'into_value', ib, 'marker of the last path element', 'Identifier::into_value() is %s, expected the marker of the last path element' % fmt(r, 5))
 
 
+def _low_dropped_by_flag(facts, body, it, head, lblocks, low_next_bb, reach, o):
+    """The other way to forget the low path: a loop-carried flag (`diverged`) guards `low_path.next()`.  In the world where the
+    paths diverge the flag leaves the iteration with the value under which the low path is no longer consulted, and on the
+    common prefix it keeps the value under which it still is."""
+    if low_next_bb is None:
+        return False
+    # the switch on a plain local that decides whether the low `next()` is called
+    cands = []
+    for sb in sorted(it.dom[low_next_bb], key=lambda x: -it.rpo.index(x)):
+        if sb == low_next_bb or sb not in lblocks:
+            continue
+        t = body.blocks[sb]['term']
+        if t['k'] == 'switch' and t['discr']['k'] in ('copy', 'move') and not t['discr']['place']['proj']:
+            fl = t['discr']['place']['local']
+            # the switch usually tests a fresh copy of the flag (`_t = copy flag; switch _t`): look through it
+            for _ in range(3):
+                cp = [st for st in body.blocks[sb]['stmts'] if st.get('k') == 'assign' and st['place']['local'] == fl and not st['place']['proj']
+                      and st['rv'].get('k') == 'use' and st['rv']['op'].get('k') in ('copy', 'move') and not st['rv']['op']['place']['proj']]
+                if not cp:
+                    break
+                fl = cp[-1]['rv']['op']['place']['local']
+            assigned_in_loop = any(st.get('k') == 'assign' and st['place']['local'] == fl and not st['place']['proj']
+                                   for bi in lblocks for st in body.blocks[bi]['stmts'])
+            if assigned_in_loop:
+                cands.append((sb, fl, t))
+    if not cands:
+        return False
+    sb, fl, t = cands[0]
+
+    def leads_to_next(target):
+        seen, st = set(), [target]
+        while st:
+            x = st.pop()
+            if x == low_next_bb:
+                return True
+            if x in seen or x not in lblocks or x == head:
+                continue
+            seen.add(x)
+            st.extend(it.succs.get(x, []))
+        return False
+    consult = {}
+    for v, tb in t['targets']:
+        consult[v] = leads_to_next(tb)
+    other = leads_to_next(t['otherwise']) if t.get('otherwise') is not None else None
+    latches = [x for x in it.preds.get(head, []) if x in lblocks]
+
+    def flag_at_latch(rc):
+        vals = set()
+        for l_ in latches:
+            if l_ in rc._reach(head, set()):
+                vals |= set(rc._values_at(fl, l_))
+        return vals
+
+    def consulted(v):
+        return consult.get(v, other)
+    v_div = flag_at_latch(reach({'req': EQ, 'meq': o, 'low': GT, 'high': LT}))
+    v_pre = flag_at_latch(reach({'req': EQ, 'meq': EQ, 'low': GT, 'high': LT}))
+    if not v_div or None in v_div or not v_pre or None in v_pre:
+        return False
+    return all(consulted(v) is False for v in v_div) and all(consulted(v) is True for v in v_pre)
+
+
 @rule('ID-BETWEEN', {
     'C14': 'between(low, high, marker) must be strictly between: the sibling-marker shortcut is sound only for l_m < marker < h_m '
            '(with <= the result equals or precedes a bound), and a one-node identifier is compared at the first path node, so its '
@@ -907,6 +969,10 @@ def id_between(ctx):
             root = c.args[0].loc[0]
             if root[0] == 'L':
                 low_local = root[1]
+    low_next_bb = None
+    for bb, c in sorted(it.calls.items()):
+        if call_name(c.term) == 'next' and c.args and node_side(c.term) == 1:
+            low_next_bb = bb
     lp = innermost_loop(it, copies[0]) if copies else None
     if not copies or lp is None or low_local is None:
         ctx.shape('walk', body, 'no step copying the high node (push of (h_ratio, h_m)) inside a loop over both paths%s'
@@ -951,7 +1017,8 @@ def id_between(ctx):
                     if not rc.must_pass(copies, start=head, stops=(head,)):
                         errs.append('at a pair of siblings (equal position, different markers) an iteration can continue without copying the high node')
                         break
-                    if not clears or not rc.must_pass(clears, start=head, stops=(head,)):
+                    if (not clears or not rc.must_pass(clears, start=head, stops=(head,))) and \
+                            not _low_dropped_by_flag(facts, body, it, head, lblocks, low_next_bb, reach, o):
                         errs.append('after the paths diverge (equal position, different markers) the low path keeps being compared: '
                                     'its deeper nodes are unrelated to the high path')
                         break
